@@ -140,6 +140,10 @@ def run_case(ns, mon, case):
         res["mul by 1"] = (x64 * 1.0, True)
         res["add 0"] = (x64 + 0.0, True)
         res["pow 1"] = (x64 ** 1, True)
+        res["pow 0"] = (x64 ** 0, True)
+        res["pow 0.0"] = (sg.pow(x64, 0.0), True)
+        res["rpow"] = (2.0 ** x64, True)
+        res["mul by 0"] = (x64 * 0.0, True)
         res["stack(const first)"] = (sg.stack([c64, x64], 0), True)
         res["concat(const first)"] = (sg.concat([c64, x64], 0), True)
         res["addmm(only a req)"] = (sg.addmm(T(np.zeros((2, 2)), requires_grad=True), T(np.ones((2, 2))), T(np.ones((2, 2)))), True)
@@ -193,6 +197,21 @@ def run_case(ns, mon, case):
             r = ti * 2
             if r.requires_grad or r.grad_fn is not None:
                 bad("guards:integer-op-result-requires-grad", "op on integer tensors produced a result requiring grad")
+        # "only floating-point tensors can be made to require grad": complex and bool are not floating point
+        for dt in (np.complex64, np.complex128, np.bool_):
+            try:
+                tc = T(np.array([1, 0], dtype=dt), requires_grad=True)
+                if tc.requires_grad:
+                    bad("guards:non-float-tensor-requires-grad", f"a {np.dtype(dt).name} tensor was created requiring grad")
+            except RuntimeError:
+                pass
+            tc = T(np.array([1, 0], dtype=dt))
+            try:
+                tc.requires_grad = True
+                if tc.requires_grad:
+                    bad("guards:non-float-tensor-requires-grad", f"requires_grad setter made a {np.dtype(dt).name} tensor require grad")
+            except RuntimeError:
+                pass
         for dt in (np.float32, np.float64):
             tf = T(np.array([1.0, 2.0], dtype=dt))
             tf.requires_grad = True
@@ -251,6 +270,18 @@ def run_case(ns, mon, case):
             bad("release:root-released", "the root backward was called on lost its gradient")
         if kept._grad is None:
             bad("release:retain_grad-ignored", "an intermediate marked with retain_grad() released its gradient")
+        # a leaf that once was the result of an untracked op (computed under no_grad, then switched to require grad) is a leaf like any other
+        with sg.no_grad():
+            made = xl * 2.0 + 1.0
+        made.requires_grad = True
+        fromconst = (nl * 2.0)
+        fromconst.requires_grad = True
+        o3 = (made * made).sum() + (fromconst * 3.0).sum()
+        o3.backward()
+        if made._grad is None or not np.allclose(made._grad, 2 * made.data):
+            bad("release:leaf-made-under-no_grad-lost-gradient", "a leaf that was computed under no_grad and then set to require grad did not keep its gradient after backward")
+        if fromconst._grad is None or not np.allclose(fromconst._grad, 3.0):
+            bad("release:leaf-made-from-constants-lost-gradient", "a leaf that was computed from non-requiring operands and then set to require grad did not keep its gradient")
         # a tensor that was the root of an earlier call and is an interior node of a later one must be released by the later call
         out2 = (out * 2.0 + xl.sum()).sum()
         retain_now = model["retain"]
